@@ -13,7 +13,8 @@ def _frames(block):
             cur = {"head": line.strip(), "funcs": []}
             stacks.append(cur)
         elif cur is not None and line.startswith("  ") and not line.startswith("      ") and "(" in line:
-            fn = line.strip().split("(")[0]
+            fn = line.strip()
+            fn = fn[:fn.rfind("(")] if "(" in fn else fn
             cur["funcs"].append(fn)
     return stacks
 
@@ -21,7 +22,7 @@ def _frames(block):
 def _inner_repo(funcs):
     for f in funcs:
         if REPO_PKG in f and "verifharness" not in f:
-            return re.sub(r"\.func\d+(\.\d+)*$", "", f.replace("github.com/basecamp/kamal-proxy/internal/", ""))
+            return re.sub(r"\.func\d+(\.\d+)*$", "", f.replace("github.com/basecamp/kamal-proxy/internal/", "").replace("(*", "").replace(")", ""))
     return None
 
 
@@ -34,11 +35,15 @@ def parse_text(text):
         acc = [s for s in stacks if not s["head"].startswith("Goroutine")]
         a = _inner_repo(acc[0]["funcs"]) if len(acc) > 0 else None
         b = _inner_repo(acc[1]["funcs"]) if len(acc) > 1 else None
-        repo = a is not None and b is not None
-        if not repo:
-            # fall back: any stack (incl. goroutine creation) touching repo code
-            a = a or (acc[0]["funcs"][0] if acc and acc[0]["funcs"] else "?")
-            b = b or (acc[1]["funcs"][0] if len(acc) > 1 and acc[1]["funcs"] else "?")
+        # A report counts against the repository when at least one of the two racing accesses
+        # happens under a repository frame: data handed to the proxy's API by a caller must be
+        # published safely by the API's own locking. Only a report with no repository frame on
+        # either side is a defect of the harness.
+        repo = a is not None or b is not None
+        a = a or (acc[0]["funcs"][0] if acc and acc[0]["funcs"] else "?")
+        b = b or (acc[1]["funcs"][0] if len(acc) > 1 and acc[1]["funcs"] else "?")
+        a = a.replace("github.com/basecamp/kamal-proxy/internal/", "")
+        b = b.replace("github.com/basecamp/kamal-proxy/internal/", "")
         pair = sorted([a, b])
         reports.append({"sig": pair[0] + " <-> " + pair[1], "repo_frames": repo, "text": block})
     return reports
